@@ -19,6 +19,9 @@ CHECKS = {
  "C18": ("E1-enum", "exhaustive enumeration of closed numeric sets and of all short byte strings against independent references (encoding/binary, a reference skipper)",
    "Varint/zig-zag: every uint64 whose 7-bit groups come from {00,01,3f,40,7f} (3.9M), every 2^k+-1, every value with <=3 bits set and its complement, thorough: all 2^32 values v and v<<32. Tags: wire types 0-7 x every index <=2^16 plus boundaries to 2^28. Skip: every reference-encoded field x suffix, every truncation, every byte string of length <=2 (thorough <=3) x wire types 0-7, and boundary-varint token strings, decided against a reference skipper (well-formed => exact length, malformed/truncated => error).",
    "Trusted: encoding/binary, the reference skipper in props/c18.go. Varints longer than 10 bytes are a declared grey zone for Skip.", "§7 C18"),
+ "C15": ("E2-bfs+E1-enum", "exhaustive enumeration of all well-nested call trees up to a call bound on the real JSONOutput, exhaustive 1- and 2-byte strings, all (prefix, Reset, document) histories, and an explicit-state BFS de-duplicated on the object's private state",
+   "Every call tree of <=15 (thorough 18) Outputter calls, every scalar/key alphabet substitution into trees of <=5 calls, all 256 one-byte and 65 536 two-byte strings as value and field name, boundary numbers, every (prefix of A, Reset, B) history for A,B<=5 calls, and a BFS over call histories keyed on the real private state (stack, inField, depth, last two output bytes) to nesting depth 3 (thorough 5) with the frontier exhausted; each output is parsed by encoding/json's tokenizer and compared with the call tree.",
+   "Trusted: encoding/json as the JSON oracle. Nesting deeper than the bound and alphabets beyond those listed are outside the bound.", "§7 C15"),
 }
 NOT_YET = "check not built yet (in progress); see DESIGN.md §7 for the planned model-checking design"
 
